@@ -150,6 +150,7 @@ func (g *Generator) Generate(args *Arguments) (res *plugin.Response) {
 		for _, sdk := range out.SDKPlugins {
 			req.PluginParameters = sdk.GetPluginParameters()
 			extra := sdk.Invoke(req)
+			log.MultiWarn(extra.Warnings)
 			if err := extra.GetError(); err != "" {
 				return plugin.BuildErrorResponse(err)
 			}
